@@ -89,8 +89,7 @@ func evalProgram(vm *r.VM, program *syntax.Program, varInputs r.ElementMap) (r.E
 }
 
 func evalExecBlock(vm *r.VM, execBlock *syntax.ExecBlock, params []r.Element) (r.Element, error) {
-	vm.BeginScope()
-	defer vm.EndScope()
+	defer vm.EndScopeOf(vm.BeginScope())
 
 	blockModule := vm.GetCurrentModule()
 	// call depth of this block: a handled exception unwinds back to it
@@ -156,8 +155,7 @@ func evalStmtBlock(vm *r.VM, stmtBlock *syntax.StmtBlock) (r.Element, error) {
 
 // evalPureStmtBlock - evaluate statement block without classDef/funcDef/import statements
 func evalPureStmtBlock(vm *r.VM, stmtBlock *syntax.StmtBlock) (r.Element, error) {
-	vm.BeginScope()
-	defer vm.EndScope()
+	defer vm.EndScopeOf(vm.BeginScope())
 
 	var rtnValue r.Element
 	var err error
@@ -587,8 +585,7 @@ func evalBranchStmt(vm *r.VM, node *syntax.BranchStmt) error {
 }
 
 func evalIterateStmt(vm *r.VM, node *syntax.IterateStmt) error {
-	vm.BeginScope()
-	defer vm.EndScope()
+	defer vm.EndScopeOf(vm.BeginScope())
 
 	// pre-defined key, value variable name
 	var keySlot, valueSlot *r.IDName
